@@ -49,8 +49,8 @@ SPEC = dict(
     release_n=30,   # release-profile replay: corpus + the first generated cases (no overflow-dependent site is left in dist.rs)
     translate=dist_skel.translate,
     ml_modules=["dist_model"],
-    n={"quick": 72, "thorough": 1000},
-    search_n={"quick": 192, "thorough": 1000},
+    n={"quick": 88, "thorough": 1000},
+    search_n={"quick": 240, "thorough": 1000},
     nontrivial=nontrivial,
     histogram=histogram,
     rule="DNA (K=5) scoring matrices of width 1..8 (all 4^M / 5^M words enumerable; kind `large`: width 9..12 quick / 9..16 thorough, "
